@@ -63,6 +63,18 @@ type Unit struct {
 	Files   map[string]string // file base name -> content (already with package clause)
 }
 
+// Stage is one load+run of harnesses; a Plan without explicit stages has exactly one.
+type Stage struct {
+	Name     string
+	LoadDir  string
+	Patterns []string
+	Units    []*Unit
+	Regex    string
+	ModFiles map[string]string // for harnesses living in a scratch module: its files (for later replay)
+	ModDir   string
+	InitPkgs func(string) bool
+}
+
 // Plan describes what a check runs.
 type Plan struct {
 	LoadDir   string
@@ -80,6 +92,7 @@ type Plan struct {
 	// PipelineFailures are non-solver failures (e.g. generator errors) keyed for known-finding matching.
 	PipelineFailures []*sym.Violation
 	Programs         int
+	Stages           []*Stage
 }
 
 type KnownFinding struct {
@@ -177,51 +190,82 @@ func runCheck(id, tier string, rest []string) int {
 			plan.TimeoutMs = 300000
 		}
 	}
-	loadStart := time.Now()
-	l, err := sym.Load(plan.LoadDir, plan.Patterns, overlayFor(plan.Units), os.Environ())
-	if err != nil {
-		fmt.Printf("INCONCLUSIVE property=%s load failed: %v\n", id, err)
-		writeEvidence(id, tier, start, plan, nil, nil, nil, []string{"load: " + err.Error()})
-		return 2
+	stages := plan.Stages
+	if len(stages) == 0 {
+		stages = []*Stage{{Name: "main", LoadDir: plan.LoadDir, Patterns: plan.Patterns, Units: plan.Units, Regex: plan.Regex}}
 	}
-	loadDur := time.Since(loadStart)
-	reStr := plan.Regex
-	if *reFlag != "" {
-		reStr = *reFlag
+	var results []*sym.HarnessResult
+	harnessPkg := map[string]*Unit{}
+	harnessStage := map[string]*Stage{}
+	totalFns := 0
+	for _, st := range stages {
+		loadStart := time.Now()
+		l, err := sym.Load(st.LoadDir, st.Patterns, overlayFor(st.Units), os.Environ())
+		if err != nil {
+			fmt.Printf("INCONCLUSIVE property=%s stage %s load failed: %v\n", id, st.Name, trunc(err.Error(), 600))
+			writeEvidence(id, tier, start, plan, nil, nil, nil, []string{"load: " + err.Error()})
+			return 2
+		}
+		loadDur := time.Since(loadStart)
+		reStr := st.Regex
+		if *reFlag != "" {
+			reStr = *reFlag
+		}
+		fns := l.Harnesses(regexp.MustCompile(reStr))
+		if len(fns) == 0 {
+			if *reFlag != "" {
+				continue
+			}
+			fmt.Printf("INCONCLUSIVE property=%s stage %s: no harness matched %q\n", id, st.Name, reStr)
+			writeEvidence(id, tier, start, plan, nil, nil, nil, []string{"no harness matched"})
+			return 2
+		}
+		totalFns += len(fns)
+		fmt.Fprintf(os.Stderr, "[%s %s %s] loaded in %.1fs, %d harnesses, %d workers\n", id, tier, st.Name, loadDur.Seconds(), len(fns), *workers)
+		cfg := plan.Cfg
+		cfg.InitFuncs = st.InitPkgs
+		res, err := sym.RunAll(l, fns, *workers, plan.Solver, plan.TimeoutMs, cfg, sym.Hooks{PackageInit: packageInitHook}, func(r *sym.HarnessResult) {
+			stt := "ok"
+			if len(r.Violations) > 0 {
+				stt = fmt.Sprintf("VIOLATED(%d)", len(r.Violations))
+			} else if len(r.Inconclusive) > 0 {
+				stt = "INCONCLUSIVE"
+			}
+			fmt.Fprintf(os.Stderr, "  %-60s %-12s paths=%d obl=%d/%d q=%d t=%.1fs\n", r.Name, stt, r.Paths, r.Discharged, r.Obligations, r.Queries, r.SolverTime)
+			if *debug || stt == "INCONCLUSIVE" {
+				for _, s := range r.Inconclusive {
+					fmt.Fprintf(os.Stderr, "      inconclusive: %s\n", s)
+				}
+			}
+		})
+		if err != nil {
+			fmt.Printf("INCONCLUSIVE property=%s %v\n", id, err)
+			return 2
+		}
+		for i, f := range fns {
+			qn := f.Name()
+			if f.Pkg != nil {
+				qn = f.Pkg.Pkg.Path() + "." + f.Name()
+			}
+			if res[i] != nil {
+				res[i].Qualified = qn
+				for _, v := range res[i].Violations {
+					v.Qualified = qn
+				}
+			}
+			for _, u := range st.Units {
+				if f.Pkg != nil && pkgDirOf(l, f.Pkg.Pkg.Path()) == u.PkgDir {
+					harnessPkg[qn] = u
+					harnessStage[qn] = st
+				}
+			}
+		}
+		results = append(results, res...)
 	}
-	fns := l.Harnesses(regexp.MustCompile(reStr))
-	if len(fns) == 0 && len(plan.PipelineFailures) == 0 {
-		fmt.Printf("INCONCLUSIVE property=%s no harness matched %q\n", id, reStr)
+	if totalFns == 0 && len(plan.PipelineFailures) == 0 {
+		fmt.Printf("INCONCLUSIVE property=%s no harness matched\n", id)
 		writeEvidence(id, tier, start, plan, nil, nil, nil, []string{"no harness matched"})
 		return 2
-	}
-	fmt.Fprintf(os.Stderr, "[%s %s] loaded in %.1fs, %d harnesses, %d workers\n", id, tier, loadDur.Seconds(), len(fns), *workers)
-	results, err := sym.RunAll(l, fns, *workers, plan.Solver, plan.TimeoutMs, plan.Cfg, sym.Hooks{PackageInit: packageInitHook}, func(r *sym.HarnessResult) {
-		st := "ok"
-		if len(r.Violations) > 0 {
-			st = fmt.Sprintf("VIOLATED(%d)", len(r.Violations))
-		} else if len(r.Inconclusive) > 0 {
-			st = "INCONCLUSIVE"
-		}
-		fmt.Fprintf(os.Stderr, "  %-60s %-12s paths=%d obl=%d/%d q=%d t=%.1fs\n", r.Name, st, r.Paths, r.Discharged, r.Obligations, r.Queries, r.SolverTime)
-		if *debug || st == "INCONCLUSIVE" {
-			for _, s := range r.Inconclusive {
-				fmt.Fprintf(os.Stderr, "      inconclusive: %s\n", s)
-			}
-		}
-	})
-	if err != nil {
-		fmt.Printf("INCONCLUSIVE property=%s %v\n", id, err)
-		return 2
-	}
-	// map harness -> unit for replay
-	harnessPkg := map[string]*Unit{}
-	for _, f := range fns {
-		for _, u := range plan.Units {
-			if f.Pkg != nil && pkgDirOf(l, f.Pkg.Pkg.Path()) == u.PkgDir {
-				harnessPkg[f.Name()] = u
-			}
-		}
 	}
 	known := loadKnown()
 	var inconclusive []string
@@ -251,13 +295,17 @@ func runCheck(id, tier string, rest []string) int {
 			continue
 		}
 		seenKey[key] = true
-		replayPath := filepath.Join(verifDir, "evidence", "replays", fmt.Sprintf("%s-%s-%s.json", id, v.Harness, sanitize(v.AssertID)))
-		u := harnessPkg[v.Harness]
+		replayPath := filepath.Join(verifDir, "evidence", "replays", fmt.Sprintf("%s-%s-%s.json", id, sanitize(shortQual(v)), sanitize(v.AssertID)))
+		u := harnessPkg[v.Qualified]
 		rep := &ReplayFile{Property: id, Harness: v.Harness, Assert: v.AssertID, Kind: v.Kind, Detail: v.Detail, Model: v.Model}
 		if u != nil {
 			rep.PkgDir = u.PkgDir
 			rep.PkgName = u.PkgName
 			rep.Files = u.Files
+			if st := harnessStage[v.Qualified]; st != nil && st.ModFiles != nil {
+				rep.ModFiles = st.ModFiles
+				rep.ModDir = st.ModDir
+			}
 		}
 		outcome := "not-replayed"
 		if v.Kind == "pipeline" {
@@ -299,7 +347,7 @@ func runCheck(id, tier string, rest []string) int {
 	}
 	writeEvidence(id, tier, start, plan, results, confirmed, knownHits, inconclusive)
 	if exit == 0 {
-		fmt.Printf("OK property=%s tier=%s harnesses=%d wall=%.1fs\n", id, tier, len(fns), time.Since(start).Seconds())
+		fmt.Printf("OK property=%s tier=%s harnesses=%d wall=%.1fs\n", id, tier, totalFns, time.Since(start).Seconds())
 	}
 	return exit
 }
@@ -327,10 +375,30 @@ func trunc(s string, n int) string {
 	return s
 }
 
+var subPropRe = regexp.MustCompile(`^VH_(C\d\d)_`)
+
+func shortQual(v *sym.Violation) string {
+	q := v.Qualified
+	if i := strings.LastIndex(q, "/"); i >= 0 {
+		q = q[i+1:]
+	}
+	if q == "" {
+		q = v.Harness
+	}
+	return q
+}
+
 func matchKnown(known []KnownFinding, id, key string) *KnownFinding {
+	sub := ""
+	if id == "C12" {
+		// generated-code obligations re-run on fresh generator output inherit the findings of their own property
+		if m := subPropRe.FindStringSubmatch(key); m != nil {
+			sub = m[1]
+		}
+	}
 	for i := range known {
 		k := &known[i]
-		if k.Property != id || k.Status != "known" {
+		if (k.Property != id && (sub == "" || k.Property != sub)) || k.Status != "known" {
 			continue
 		}
 		if ok, _ := regexp.MatchString("^(?:"+k.Key+")$", key); ok {
